@@ -21,6 +21,7 @@ import (
 
 	"github.com/coredhcp/coredhcp/logger"
 	"github.com/coredhcp/coredhcp/plugins/allocators"
+	"github.com/coredhcp/coredhcp/verifhook"
 )
 
 var log = logger.GetLogger("plugins/allocators/bitmap")
@@ -66,6 +67,9 @@ func (a *Allocator) Allocate(hint net.IPNet) (ret net.IPNet, err error) {
 	if hint.IP.To16() != nil && a.containing.Contains(hint.IP) {
 		idx, hintErr := a.toIndex(hint.IP)
 		if hintErr == nil && !a.bitmap.Test(idx) {
+			if verifhook.On {
+				verifhook.Point("alloc6.set", &a.l, idx)
+			}
 			a.bitmap.Set(idx)
 			ret.IP, err = a.toPrefix(idx)
 			return
@@ -77,6 +81,9 @@ func (a *Allocator) Allocate(hint net.IPNet) (ret net.IPNet, err error) {
 	if !ok {
 		err = allocators.ErrNoAddrAvail
 		return
+	}
+	if verifhook.On {
+		verifhook.Point("alloc6.set", &a.l, next)
 	}
 	a.bitmap.Set(next)
 	ret.IP, err = a.toPrefix(next)
@@ -100,6 +107,9 @@ func (a *Allocator) Free(prefix net.IPNet) error {
 
 	if !a.bitmap.Test(idx) {
 		return &allocators.ErrDoubleFree{Loc: prefix}
+	}
+	if verifhook.On {
+		verifhook.Point("alloc6.clear", &a.l, idx)
 	}
 	a.bitmap.Clear(idx)
 	return nil
